@@ -48,7 +48,8 @@ BrokenInvariant ==
 Event(e) ==
   LET p == e.proc
       isW == p \in TraceWriters
-  IN CASE e.ev = "lock" /\ e.res -> Try(isW /\ G_Lock(p), WLock(p), "lock-acquired-while-held")
+  IN CASE p \notin TraceWriters \cup TraceReaders -> Reject("event-of-an-undeclared-actor")
+       [] e.ev = "lock" /\ e.res -> Try(isW /\ G_Lock(p), WLock(p), "lock-acquired-while-held")
        [] e.ev = "lock" /\ ~e.res -> Try(isW /\ G_LockFail(p), WLockFail(p), "lock-refused-while-free")
        [] e.ev = "lockblock" -> Reject("lock-attempt-blocks-on-a-held-lock-instead-of-failing-after-the-timeout")
        \* opening a reader may fail when a file vanished under it (the reader retries a few
@@ -71,21 +72,28 @@ Event(e) ==
        [] e.ev = "openfail" -> Try(G_ROpenFail(p, e.file), ROpenFail(p, e.file), "open-failed-although-file-exists")
        [] e.ev = "create" /\ e.file[1] = "seg" -> Try(isW /\ G_Create(p, e.file), WCreate(p, e.file), "segment-file-created-outside-protocol")
        [] e.ev = "create" /\ e.file[1] = "tmptoc" ->
-            Try(isW /\ G_TocTmpCreate(p, e.file[2]), WTocTmpCreate(p, e.file[2]), "temp-toc-created-outside-protocol")
+            Try(isW /\ G_TocTmpCreate(p, e.file), WTocTmpCreate(p, e.file), "temp-toc-created-outside-protocol")
        [] e.ev = "close" -> Try(isW /\ G_Close(p, e.file), WClose(p, e.file), "close-of-a-file-not-open-by-this-writer")
        [] e.ev = "delete" ->
             IF isW /\ w[p].pc = "writing" THEN Try(G_DeletePart(p, e.file), WDeletePart(p, e.file), "delete-before-commit-of-a-file-that-is-not-an-assembled-part")
             ELSE Try(isW /\ G_CleanDelete(p, e.file), WCleanDelete(p, e.file), "deleted-a-file-the-latest-generation-needs-or-outside-cleanup")
        [] e.ev = "rename" ->
-            Try(isW /\ e.src = <<"tmptoc", e.dst[2]>> /\ e.dst[1] = "toc" /\ G_TocRename(p, e.dst[2], TocOf(e.toc)),
-                WTocRename(p, e.dst[2], TocOf(e.toc)), "toc-rename-violates-commit-rule")
+            Try(isW /\ e.dst[1] = "toc" /\ G_TocRename(p, e.src, e.dst[2], TocOf(e.toc)),
+                WTocRename(p, e.src, e.dst[2], TocOf(e.toc)), "toc-rename-violates-commit-rule")
+       [] e.ev = "api" /\ e.op = "update" -> Try(isW /\ w[p].pc = "writing", WUpdate(p, e.key, e.uid), "update-outside-open-writer")
        [] e.ev = "api" /\ e.op = "add" -> Try(isW /\ w[p].pc = "writing", WAdd(p, e.key), "add-outside-open-writer")
        [] e.ev = "api" /\ e.op = "delete" -> Try(isW /\ w[p].pc = "writing", WDel(p, e.key), "delete-outside-open-writer")
+       \* delete_by_term / delete_by_query / delete_document with the value the call returned
+       [] e.ev = "api" /\ e.op = "deletemany" ->
+            Try(isW /\ w[p].pc = "writing" /\ (e.ret >= 0 => e.ret = DeleteCount(p, ToSet(e.keys))),
+                WDelMany(p, ToSet(e.keys)), "delete-returned-wrong-count")
        [] e.ev = "probe" ->
             \* e.n = number of documents the reader delivered (a key delivered twice is a violation too)
-            IF ProbeOK(p, ToSet(e.keys), e.gen, e.uptodate) /\ e.n = Cardinality(ToSet(e.keys)) THEN Skip
+            IF ProbeOK(p, {<<e.keys[i][1], e.keys[i][2]>> : i \in DOMAIN e.keys}, e.gen, e.uptodate)
+               /\ e.n = Cardinality(ToSet(e.keys)) THEN Skip
             ELSE Reject("reader-does-not-show-exactly-its-generation")
-       [] e.ev = "crash" -> Try(isW /\ w[p].pc \notin {"idle", "dead"}, Crash(p), "crash-of-idle-writer")
+       [] e.ev = "crash" -> IF isW /\ w[p].pc = "idle" THEN Skip     \* died before touching the index
+                            ELSE Try(isW /\ w[p].pc # "dead", Crash(p), "crash-of-a-dead-writer")
        [] OTHER -> Reject("unknown-event")
 
 TInit == /\ tid \in 1 .. Len(Traces)
